@@ -14,7 +14,7 @@ from .core import Violation, hyp_run, loop_run, Res
 
 PROPERTY = 'C17'
 RULE = ('operation sequences over xtuml.OrderedSet and xtuml.QuerySet: exhaustive product of a '
-        '42-call alphabet (add/discard/remove x, pop last/first, clear, iterate-discarding-current, '
+        '44-call alphabet (add/discard/remove x, pop last/first, clear, iterate-discarding-current forwards and in reverse, '
         '|= &= -= ^= with operands [], [0], (1,2), OrderedSet[2,1,0] and self, s = s|&-^ operand) '
         'on universe {0,1,2} up to the stated length, plus Hypothesis sequences up to length 60 '
         'over 8 elements; full comparison with the list/set model after the last call of every '
@@ -113,13 +113,14 @@ def apply(cls, real, model, op, case):
     elif name == 'iterdiscard':
         pred = op[1]
         visited = []
-        for x in real:
+        rev = len(op) > 2 and op[2] == 'rev'
+        for x in (reversed(real) if rev else real):
             visited.append(x)
             if pred == 'all' or (pred == 'even' and x % 2 == 0) or (pred == 'odd' and x % 2 == 1):
                 real.discard(x)
                 model.discard(x)
-        if visited != before:
-            fail('iterate-while-discarding', 'visited %r, set before was %r' % (visited, before))
+        if visited != (list(reversed(before)) if rev else before):
+            fail('iterate-while-discarding' + ('-reversed' if rev else ''), 'visited %r, set before was %r' % (visited, before))
     elif name in ('ior', 'iand', 'isub', 'ixor'):
         isself = op[1][0] == 'self'
         o = operand(cls, op[1], real)
@@ -285,7 +286,7 @@ def alphabet(universe, reduced=False):
     for x in u:
         ops.append(('remove', x))
     ops += [('pop', True, True), ('pop', False, True), ('clear',),
-            ('iterdiscard', 'all'), ('iterdiscard', 'even')]
+            ('iterdiscard', 'all'), ('iterdiscard', 'even'), ('iterdiscard', 'all', 'rev'), ('iterdiscard', 'even', 'rev')]
     operands = [('list', ()), ('list', (0,)), ('tuple', (1, 2)), ('oset', (2, 1, 0)), ('self', ())]
     if reduced:
         operands = [('list', (0,)), ('oset', (2, 1, 0)), ('self', ())]
@@ -311,6 +312,7 @@ def op_strategy(universe):
         st.tuples(st.just('pop'), st.booleans(), st.booleans()),
         st.just(('clear',)),
         st.tuples(st.just('iterdiscard'), st.sampled_from(['all', 'even', 'odd'])),
+        st.tuples(st.just('iterdiscard'), st.sampled_from(['all', 'even', 'odd']), st.just('rev')),
         st.tuples(st.sampled_from(['ior', 'iand', 'isub', 'ixor']), operand_s),
         st.tuples(st.sampled_from(['or', 'and', 'sub', 'xor']),
                   st.tuples(st.sampled_from(['list', 'tuple', 'oset', 'same']), vals)),
